@@ -114,7 +114,8 @@ impl StateMachine<'_> {
         }
         let first_path = previous_path.is_none();
         let new_path = first_path || previous_path.as_deref() != Some(&grep_line.path);
-        let line_number_jump = previous_line < &grep_line.line_number.as_ref().map(|n| n - 1);
+        let line_number_jump =
+            previous_line < &grep_line.line_number.as_ref().map(|n| n.saturating_sub(1));
         // Emit a '--' section separator when output contains context lines (i.e. *grep option -A, -B, -C is in effect).
         let new_section = !new_path
             && (previous_line_type == Some(&LineType::Context)
